@@ -268,8 +268,30 @@ func c18random(r *rng.R) c18prog {
 				add("SISMEMBER", k, m())
 			}
 		case "zset":
-			sc := func() string { return rng.Pick(r, []string{"1", "2", "3", "-1", "2.5", "10"}) }
-			switch r.Intn(14) {
+			sc := func() string {
+				if r.Chance(1, 12) {
+					return rng.Pick(r, []string{"inf", "-inf", "+inf"})
+				}
+				return rng.Pick(r, []string{"1", "2", "3", "-1", "2.5", "10"})
+			}
+			switch r.Intn(16) {
+			case 14:
+				// ranks count from the high end with REV
+				a := []string{"ZRANGE", k, fmt.Sprint(r.Range(-4, 3)), fmt.Sprint(r.Range(-3, 5)), "REV"}
+				if r.Bool() {
+					a = append(a, "WITHSCORES")
+				}
+				add(a...)
+			case 15:
+				// BYSCORE REV takes max first
+				a := []string{"ZRANGE", k, rng.Pick(r, []string{"+inf", "3", "(3", "2"}), rng.Pick(r, []string{"-inf", "1", "(1", "2"}), "BYSCORE", "REV"}
+				if r.Chance(1, 3) {
+					a = append(a, "LIMIT", fmt.Sprint(r.Intn(3)), rng.Pick(r, []string{"1", "2", "-1"}))
+				}
+				if r.Bool() {
+					a = append(a, "WITHSCORES")
+				}
+				add(a...)
 			case 0, 1, 2:
 				add("ZADD", k, sc(), m())
 			case 3:
@@ -279,7 +301,7 @@ func c18random(r *rng.R) c18prog {
 			case 5:
 				add("ZSCORE", k, m())
 			case 6:
-				add("ZINCRBY", k, rng.Pick(r, []string{"1", "-2", "0.5"}), m())
+				add("ZINCRBY", k, rng.Pick(r, []string{"1", "-2", "0.5", "1", "-2", "0.5", "inf", "-inf"}), m())
 			case 7:
 				a := []string{"ZRANGE", k, fmt.Sprint(r.Range(-4, 3)), fmt.Sprint(r.Range(-3, 5))}
 				if r.Bool() {
